@@ -4,6 +4,7 @@ import (
 	"context"
 	"encoding/json"
 	"fmt"
+	"math"
 	"math/rand"
 	"strings"
 	"sync"
@@ -30,6 +31,9 @@ type XOp struct {
 	RateUs int    `json:"rate_us,omitempty"` // api opts: ExclusiveRateLimit(rlctx, rate)
 	Fail   bool   `json:"fail,omitempty"`    // the function resolves with / returns an error
 	Flip   bool   `json:"flip,omitempty"`    // api opts: the Work option is given after the wrappers
+	// NegWait: the wait is one of the values that must be ignored (wait <= 0), incl. the extreme ones: 1 = -1ns, 2 = -1h,
+	// 3 = math.MinInt64, 4 = math.MinInt64 + 1
+	NegWait int `json:"neg_wait,omitempty"`
 }
 
 type XScenario struct {
@@ -165,6 +169,19 @@ func (x *xExec) do(g string, op XOp) {
 		}
 	case "release":
 		x.release(g, op.Fn)
+	case "badcall":
+		// a call without a work function panics (documented) and must leave nothing behind
+		ctl.Gate("drv.call")
+		var p string
+		switch op.N % 3 {
+		case 0:
+			p = safeCall(func() { x.x.Call(op.Key, nil) })
+		case 1:
+			p = safeCall(func() { x.x.CallWithOptions(bigbuff.ExclusiveKey(op.Key)) })
+		default:
+			p = safeCall(func() { x.x.StartAfter(op.Key, nil, time.Millisecond) })
+		}
+		r.Add(rec.Ev{"ev": "badcall", "g": g, "key": op.Key, "panicked": p != ""})
 	case "rlcancel":
 		ctl.Gate("drv.call")
 		r.Add(rec.Ev{"ev": "rlcancel", "g": g})
@@ -172,6 +189,16 @@ func (x *xExec) do(g string, op XOp) {
 	case "call":
 		ctl.Gate("drv.call")
 		wait := time.Duration(op.WaitUs) * time.Microsecond
+		switch op.NegWait {
+		case 1:
+			wait = -1
+		case 2:
+			wait = -time.Hour
+		case 3:
+			wait = time.Duration(math.MinInt64)
+		case 4:
+			wait = time.Duration(math.MinInt64 + 1)
+		}
 		start := op.Start || op.Api == "start" || op.Api == "startafter"
 		mode := op.Mode
 		if op.Api != "" && op.Api != "opts" {
@@ -277,6 +304,12 @@ func genExclScenario(rng *rand.Rand, profile, mode string) any {
 				held = append(held, fn)
 			}
 			op.Fail = rng.Intn(5) == 0
+			if rng.Intn(8) == 0 {
+				op.WaitUs, op.NegWait = 0, 1+rng.Intn(4)
+			}
+			if rng.Intn(12) == 0 {
+				ops = append(ops, XOp{K: "badcall", Key: keys[rng.Intn(len(keys))], N: rng.Intn(3)})
+			}
 			switch a := rng.Intn(10); {
 			case a < 4:
 				// CallWithOptions with wrappers; a third of them rate limited
@@ -288,7 +321,7 @@ func genExclScenario(rng *rand.Rand, profile, mode string) any {
 				op.Api = []string{"call", "callafter", "async", "afterasync", "start", "startafter"}[a-4]
 				op.Start = false
 				if op.Api == "call" || op.Api == "async" || op.Api == "start" {
-					op.WaitUs = 0
+					op.WaitUs, op.NegWait = 0, 0
 				}
 			}
 			ops = append(ops, op)
